@@ -291,6 +291,7 @@ func c13New(in *C13Input, obs *C13Obs, id string) (*c13Mach, []*atomic.Int32) {
 	names = append(names, am.StateException)
 	m := am.New(ctx, schema, &am.Opts{Id: id, HandlerTimeout: 5 * time.Second})
 	m.DisposeTimeout = 400 * time.Millisecond
+	m.EvalTimeout = 300 * time.Millisecond
 	must(m.VerifyStates(names))
 	x := &c13Mach{m: m, cancel: cancel, names: names, panics: &obs.Panics, pmu: &sync.Mutex{}}
 	if in.Mode == 6 {
@@ -626,6 +627,8 @@ func c13Len(kind int) int {
 		return 2
 	case c13Add:
 		return 11
+	case c13Eval:
+		return 7
 	}
 	return 1
 }
@@ -671,8 +674,13 @@ func c13Gen(r *Rng, gated bool) *C13Input {
 	if r.Chance(20) {
 		in.Threads = append(in.Threads, c13Dispose)
 	}
-	if r.Chance(50) {
-		in.Threads = append(in.Threads, c13Add)
+	if r.Chance(55) {
+		// the workload goroutine: a mutation or an Eval
+		if r.Chance(65) {
+			in.Threads = append(in.Threads, c13Add)
+		} else {
+			in.Threads = append(in.Threads, c13Eval)
+		}
 	}
 	for i, na := 0, r.Range(1, 3); i < na; i++ {
 		in.Threads = append(in.Threads, c13GatedKinds[r.Intn(len(c13GatedKinds))])
@@ -749,6 +757,18 @@ func c13Landings() []*C13Input {
 			in.Schedule = append(in.Schedule, rep(0, 5)...)
 			in.Schedule = append(in.Schedule, rep(1, 11-p)...)
 			in.Schedule = append(in.Schedule, 2)
+			ret = append(ret, in)
+		}
+	}
+	// Eval in flight: p actions of Eval, s stages of the disposal, Eval to the end, the rest of the disposal
+	for p := 0; p <= 7; p++ {
+		for st := 1; st <= 5; st++ {
+			in := &C13Input{Handlers: p%2 == 1, Pre: []int{c13When}, NDisp: 1, Threads: []int{c13Dispose, c13Eval},
+				Post: []int{c13Eval}}
+			in.Schedule = append(in.Schedule, rep(1, p)...)
+			in.Schedule = append(in.Schedule, rep(0, st)...)
+			in.Schedule = append(in.Schedule, rep(1, 7-p)...)
+			in.Schedule = append(in.Schedule, rep(0, 5-st)...)
 			ret = append(ret, in)
 		}
 	}
